@@ -15,7 +15,8 @@
 (*   sess   set of [id, node, beh, checks, name, ci]                         *)
 (*   schk   set of [node, check, sess]        session -> check links         *)
 (*   nodes  set of [name, id]                                                *)
-(*   svcs   set of [node, id, name]                                          *)
+(*   svcs   set of [node, id, name, mi]  (mi = modify index: ensureServiceTxn   *)
+(*          moves it only when the registration differs from the stored one) *)
 (*   chks   set of [node, id, status, svc, typ, sname]                       *)
 (*   pq     set of [id, sess]                 prepared queries (session link)*)
 (*   coords set of node names having a coordinate                            *)
@@ -287,14 +288,20 @@ EnsureCheck(st, idx, n, c) ==
            bound == {m.sess : m \in {m \in s1.schk : m.node = n /\ m.check = c.id}}
        IN [st |-> IF status = "critical" THEN DeleteSessions(s1, idx, bound) ELSE s1, err |-> FALSE]
 
+\* ensureServiceTxn at this level of abstraction: an identical registration changes nothing (IsSameService), anything else
+\* is stored with the command's index
+SvcPut(st, idx, n, id, name) ==
+  IF \E x \in st.svcs : x.node = n /\ x.id = id /\ x.name = name THEN st
+  ELSE [st EXCEPT !.svcs = {x \in @ : ~(x.node = n /\ x.id = id)} \cup {[node |-> n, id |-> id, name |-> name, mi |-> idx]}]
+SvcMi(st, n, id) == IF SvcHas(st, n, id) THEN (CHOOSE x \in st.svcs : x.node = n /\ x.id = id).mi ELSE 0
+
 \* ensureRegistrationTxn : node, optional service, optional check
 Register(st, idx, c) ==
   LET nodeKnown == \E x \in st.nodes : x.name = c.node /\ x.id = c.nid
       r1 == IF nodeKnown THEN [st |-> st, err |-> FALSE] ELSE EnsureNode(st, idx, c.node, c.nid)
   IN IF r1.err THEN [st |-> st, res |-> Err]
      ELSE LET s2 == IF c.hassvc
-                    THEN [r1.st EXCEPT !.svcs = {x \in @ : ~(x.node = c.node /\ x.id = c.svc.id)}
-                                               \cup {[node |-> c.node, id |-> c.svc.id, name |-> c.svc.name]}]
+                    THEN SvcPut(r1.st, idx, c.node, c.svc.id, c.svc.name)
                     ELSE r1.st
               r3 == IF c.haschk THEN EnsureCheck(s2, idx, c.node, c.chk) ELSE [st |-> s2, err |-> FALSE]
           IN IF r3.err THEN [st |-> st, res |-> Err] ELSE [st |-> r3.st, res |-> Nil]
@@ -382,9 +389,13 @@ TxnNode(st, idx, o) ==
     [] OTHER -> [st |-> st, err |-> "yes", out |-> <<>>]
 TxnService(st, idx, o) ==
   CASE o.verb = "set" -> IF ~NodeHas(st, o.node) THEN [st |-> st, err |-> "yes", out |-> <<>>]
-                         ELSE [st |-> [st EXCEPT !.svcs = {x \in @ : ~(x.node = o.node /\ x.id = o.id)}
-                                                   \cup {[node |-> o.node, id |-> o.id, name |-> o.name]}],
-                               err |-> "no", out |-> <<>>]
+                         ELSE [st |-> SvcPut(st, idx, o.node, o.id, o.name), err |-> "no", out |-> <<>>]
+    \* ensureServiceCASTxn: index 0 = "must not exist"; otherwise the stored modify index must be the supplied one;
+    \* a failed comparison is an ERROR of the operation (and so aborts the transaction - C05, C10)
+    [] o.verb = "cas" -> LET has == SvcHas(st, o.node, o.id) IN
+                         IF ~NodeHas(st, o.node) \/ (o.mi = 0 /\ has) \/ (o.mi # 0 /\ ~has) \/ (has /\ o.mi # SvcMi(st, o.node, o.id))
+                         THEN [st |-> st, err |-> "yes", out |-> <<>>]
+                         ELSE [st |-> SvcPut(st, idx, o.node, o.id, o.name), err |-> "no", out |-> <<>>]
     [] o.verb = "delete" -> [st |-> DeleteService(st, idx, o.node, o.id), err |-> "no", out |-> <<>>]
     [] o.verb = "get" -> [st |-> st, err |-> E(~SvcHas(st, o.node, o.id)), out |-> <<>>]
     [] OTHER -> [st |-> st, err |-> "yes", out |-> <<>>]
